@@ -40,8 +40,6 @@ def gen_case(rng: random.Random, tier: str):
     g = gen.DefGen(rng, swarm=sw, max_fields=8)
     defs = g.build(n_top=rng.randint(1, 2))
     root = defs["structs"][-1]
-    if root["kind"] == "union":
-        root["kind"] = "struct"
     n = len(root["fields"])
     # split into steps
     steps = []
@@ -72,7 +70,7 @@ def _root_text(defs, name, selfref, typedef=False, nocompile=False):
     flag = "#[nocompile]\n" if nocompile else ""  # the definition language's per-structure opt-out of the compiled reader
     if typedef:
         body = gen.render_struct_body(root)
-        return text, f"{flag}typedef struct {{\n{body}}} {name};\n"
+        return text, f"{flag}typedef {root['kind']} {{\n{body}}} {name};\n"
     return text, flag + gen.render_struct(root)
 
 
@@ -233,7 +231,10 @@ def run_case(case, stats):
     except Exception as ex:  # noqa: BLE001
         raise Discard("tmp_load_fail_" + type(ex).__name__)
     harvested = [(f.name, f.type, f.bits) for f in csC.Tmp.__fields__]
-    st = csC._make_struct("R", [], align=cfg["align"])
+    is_union = defs["structs"][-1]["kind"] == "union"
+    st = (csC._make_union if is_union else csC._make_struct)("R", [], align=cfg["align"])
+    if is_union:
+        stats.count("probe.union_built_incrementally")
     if cfg["compiled"] and not nc:
         st = compiler.compile(st)
     csC.add_type("R", st)
